@@ -177,6 +177,35 @@ def target_matrix():
     return out
 
 
+PARAMS = ['', 'a', 'a, b=d', 'a, /', 'a, /, b', 'a=d, /, b=d', '*a', '*, k', '*, k=d', '*, k, l=d', '*, k=d, l', '*a, k', 'a, *, k',
+          '**kw', 'a, *b, k, l=d, **kw', 'a, /, b, *, k, **kw', 'a, b=d, *c, k=d, l, **kw']
+
+
+def param_matrix():
+    """every parameter-list shape under def / async def / lambda / method, plain and annotated: defaults that are present, absent
+    (None entries of kw_defaults) and mixed"""
+    out = []
+    for k, ps in enumerate(PARAMS):
+        ann = ', '.join((q + ': int' if q.strip('*') and '=' not in q and q not in ('/', '*') else
+                         q.replace('=', ': int = ') if '=' in q else q) for q in ps.split(', ')) if ps else ''
+        progs = [
+            ('def', 'd = 1\ndef f(%s):\n    return d\nf\n' % ps),
+            ('def-ann', 'd = 1\ndef f(%s) -> int:\n    return d\nf\n' % ann),
+            ('async', 'd = 1\nasync def f(%s):\n    return d\nf\n' % ps),
+            ('lambda', 'd = 1\nf = lambda %s: d\nf\n' % ps),
+            ('method', 'd = 1\nclass K:\n    def m(self%s):\n        return d\nK\n' % (', ' + ps if ps else '')),
+            ('nested-lambda', 'd = 1\ndef g():\n    return lambda %s: d\ng\n' % ps),
+        ]
+        for b, src in progs:
+            try:
+                compile(src, '<m>', 'exec')
+            except SyntaxError:
+                continue
+            lines = src.split('\n')
+            out.append(('params-%s-%d' % (b, k), src, (len(lines) - 1, len(lines[-2]))))
+    return out
+
+
 def classify_failure(what, label):
     if 'RecursionError' in what and 'chain' in label:
         return 'C08-long-assignment-chain'
@@ -278,7 +307,7 @@ def run(check):
 
     rng = check.rng
     # 1. special shapes
-    for label, src, pos in SPECIAL + target_matrix():
+    for label, src, pos in SPECIAL + target_matrix() + param_matrix():
         one(label, src, [pos])
     one('chain-400', 'a0 = 1\n' + ''.join('a%d = a%d\n' % (i + 1, i) for i in range(400)) + 'a400.\n', [(402, 5)])
     # 2. files: every name end / after-dot position sampled, plus random positions
